@@ -85,14 +85,14 @@ theorem C03_end_to_end {P : Input} {w0 : World} {F : Option Int} {c0 : Int} (S :
     apply FS_congr hL
     intro k hk
     have hk' : P.regOf k = some true := hk
-    have := I.untouched k (write_not_okd_of_not S h I (by rw [hk']; simp))
+    have := I.untouched k (write_not_okd_of_not S h (fun _ hh => hh) (okd_begun h) I (by rw [hk']; simp))
     simp [World.content, this]
   have hstored : ∀ i, P.regOf i = some false → ∃ t, xf.w.st i = some (FS P.toLPlan w0 i, t) := by
     intro i hri
     by_cases hst : P.isStale i = true
     · obtain ⟨t, ht, _⟩ := I.written i ((hall _).mpr (write_kept S.wf hri hst))
       exact ⟨t, ht⟩
-    · have hu := I.untouched i (write_not_okd_of_not S h I (fun hh => hst hh.2))
+    · have hu := I.untouched i (write_not_okd_of_not S h (fun _ hh => hh) (okd_begun h) I (fun hh => hst hh.2))
       obtain ⟨t, ht⟩ := fresh_content hL S.good (u := i) hri (by rw [← S.stale]; simpa using hst)
       exact ⟨t, by rw [hu, ht]⟩
   refine ⟨hFS, ?_, hstored, ?_⟩
@@ -116,7 +116,7 @@ theorem C03_end_to_end {P : Input} {w0 : World} {F : Option Int} {c0 : Int} (S :
       subst ha
       by_cases hl : P.lits.contains o = true
       · simp only [XSt.get, hl, if_true]
-        exact (FS_lit S h I hl (by rw [hr]; simp)).symm
+        exact (FS_lit S h (fun _ hh => hh) (okd_begun h) I hl (by rw [hr]; simp)).symm
       · have hl' : P.lits.contains o = false := by simpa using hl
         have hk := out_kept (P := P) (a := .orig o) (by simp [physOut, ho, hr]) (orig_mem hon)
         have := (hall _).mpr (engine_of_final hk (by simpa [PN.isLit] using hl'))
